@@ -1583,6 +1583,9 @@ func (s *State) alignVRFs() {
 	routeVRF := func(c *cmd) string {
 		tokens := strings.Fields(c.parsed)
 		if tokens[2] == "vrf" {
+			if len(tokens) < 4 {
+				errlog.Abort("Incomplete command: %s", c.orig)
+			}
 			return tokens[3]
 		}
 		return ""
